@@ -742,7 +742,7 @@ func compileAssignStmtLeft(context *funcContext, stmt *ast.AssignStmt) (int, []*
 				ac.ec.reg = reg
 				reg += compileExpr(context, reg, st.Object, ecnone(0))
 			} else {
-				compileExprWithKMVPropagation(context, st.Object, &reg, &ac.ec.reg)
+				compileExprWithMVPropagation(context, st.Object, &reg, &ac.ec.reg) // A of SETTABLE is a register, never a constant
 			}
 			ac.keyrk = reg
 			reg += compileExpr(context, reg, st.Key, ecnone(0))
